@@ -125,6 +125,11 @@ func tagCycleParser(doc *Parser, start *Token, arguments *Parser) (INodeTag, *Er
 		return nil, arguments.Error("Malformed cycle-tag.", nil)
 	}
 
+	if len(cycleNode.args) == 0 {
+		// executing it would divide by zero when picking the current value
+		return nil, arguments.Error("Tag 'cycle' requires at least one argument.", nil)
+	}
+
 	return cycleNode, nil
 }
 
